@@ -235,6 +235,12 @@ func resolveRenames(p *Program, rolesPath string) []string {
 	if json.Unmarshal(b, &recorded) != nil {
 		return []string{"roles.json unreadable: rename resolution disabled"}
 	}
+	recordedFuncs = map[string]bool{}
+	for _, e := range recorded {
+		if !strings.HasPrefix(e.Name, "field:") {
+			recordedFuncs[e.Name] = true
+		}
+	}
 	fieldAlias = map[string]string{}
 	var recFields []roleEntry
 	{
@@ -520,4 +526,34 @@ func methodAsFunc(m, f roleEntry) bool {
 	}
 	want += m.Sig[i:]
 	return f.Sig == want
+}
+
+// recordedFuncs: the unexported functions known to roles.json (nil when there is no table).
+var recordedFuncs map[string]bool
+
+// ownerName: a fresh unexported helper (not in the role table, not a renamed function) that is
+// called from exactly one function is a piece split off that function; its loops and stores are
+// named after the function it was split from, so policy rows keep applying.
+func ownerName(d *declInfo) string {
+	return ownerNameDepth(d, 0)
+}
+
+func ownerNameDepth(d *declInfo, depth int) string {
+	if recordedFuncs == nil || d.obj == nil || depth > 3 || ast.IsExported(d.obj.Name()) || recordedFuncs[d.name] {
+		return d.name
+	}
+	var caller *declInfo
+	for _, mc := range moduleCalls()[d.obj] {
+		if mc.d.obj == d.obj {
+			continue
+		}
+		if caller != nil && caller.obj != mc.d.obj {
+			return d.name
+		}
+		caller = mc.d
+	}
+	if caller == nil {
+		return d.name
+	}
+	return ownerNameDepth(caller, depth+1)
 }
